@@ -968,7 +968,10 @@ fn print_runtype(schema: &Runtype, named_schemas: &[NamedSchema], ctx: &mut Prin
                 .flat_map(|it: &Runtype| extract_union(it, named_schemas))
                 .collect::<BTreeSet<_>>();
 
-            if let Some(consts) = maybe_runtype_any_of_consts(schema, &flat_values, ctx) {
+            if flat_values.is_empty() {
+                // every member is never (never | never): the union is never, not an empty set of literals
+                no_args_runtype("NeverRuntype", schema)
+            } else if let Some(consts) = maybe_runtype_any_of_consts(schema, &flat_values, ctx) {
                 consts
             } else if let Some(discriminated) =
                 maybe_runtype_any_of_discriminated(schema, &flat_values, named_schemas, ctx)
